@@ -2,6 +2,7 @@ import Driver.Util
 import Driver.Img
 import GinjaxVerif.Model.Action
 import GinjaxVerif.Model.C05
+import GinjaxVerif.Model.C05Contr
 open Lean Driver GinjaxVerif GinjaxVerif.C05
 
 /-! Driver ops for C05: evaluate an expression tree over integer leaf images with the Lean model
@@ -86,6 +87,18 @@ def handle (op : String) (j : Json) : R Json := do
     pure (jInt (permParity pi))
   | "c05.block_swap" =>
     pure (jList jNat (blockSwap (← natF j "ka") (← natF j "kb")))
+  | "c05.contraction_indices" =>
+    -- `get_contraction_indices(initial_k, final_k, swappable_idxs)`; the three asserts reject
+    let ik ← intF j "initial_k"
+    let fk ← intF j "final_k"
+    let sw ← listF (asList asNat) j "swappable"
+    if sw.any (·.length ≠ 2) then throw "swappable pairs must have two entries"
+    if (ik + fk) % 2 ≠ 0 then throw "assert (initial_k + final_k) % 2 == 0"
+    if ik < fk then throw "assert initial_k >= final_k"
+    if fk < 0 then throw "assert final_k >= 0"
+    match contractionIndices ik.toNat fk.toNat (sw.map (fun p => (p.getD 0 0, p.getD 1 0))) with
+    | none => throw "rejected by the model"
+    | some res => pure (jList (jList (fun p => jList jNat [p.1, p.2])) res)
   | _ => throw s!"unknown op {op}"
 
 end Driver.C05
